@@ -134,6 +134,14 @@ Print Assumptions C19_theta_nonneg.
 Example start_hypothesis_satisfiable : forall p0 f : R, 0 <= (fun _ _ => 0) p0 f.
 Proof. intros; simpl; lra. Qed.
 
+(* result of a batch = results of its points: every Gauss point of a call goes through its own
+   update `advance` (which reads that point's data only), the same number n <= maxIter of times *)
+Theorem C19_batch_is_pointwise : forall Rh dRh rate dt sy tol fuel st,
+    exists n, (n <= fuel)%nat /\
+      loop Rops Rh dRh rate dt sy tol fuel st = map (Nat.iter n (advance Rops Rh dRh rate dt sy)) st.
+Proof. intros. apply loop_pointwise. Qed.
+Print Assumptions C19_batch_is_pointwise.
+
 Theorem C19_dgamma_nonneg : forall Rh dRh rate dt sy tol start, (forall p0 f, 0 <= start p0 f) ->
     forall maxIter pts,
     Forall (fun q => 0 <= dGam Rops (st_pt q) (st_th q) /\ pOld (st_pt q) <= p_new Rops (st_pt q) (st_th q))
